@@ -12,6 +12,7 @@ mod checks;
 mod exact;
 mod exec;
 mod generate;
+mod geom;
 mod history;
 mod monitors;
 mod ops;
@@ -275,6 +276,21 @@ fn minimize_cmd(args: &[String]) -> i32 {
     0
 }
 
+/// Replay a file and print the final state of every live object (debugging aid).
+fn dump_cmd(args: &[String]) -> i32 {
+    let file: ReplayFile = serde_json::from_str(&std::fs::read_to_string(&args[0]).expect("read")).expect("parse");
+    let header = file.header.clone();
+    let ops = file.ops.clone();
+    let h = std::thread::spawn(move || checks::dump_header(&header, &ops));
+    match h.join() {
+        Ok(v) => {
+            println!("{}", serde_json::to_string_pretty(&v).unwrap());
+            0
+        }
+        Err(_) => 2,
+    }
+}
+
 fn main() {
     std::panic::set_hook(Box::new(|_| {}));
     scrub_env();
@@ -287,6 +303,7 @@ fn main() {
         "worker" => worker(&args[1..]),
         "replay" => replay_cmd(&args[1..]),
         "minimize" => minimize_cmd(&args[1..]),
+        "dump" => dump_cmd(&args[1..]),
         _ => {
             eprintln!("unknown subcommand");
             2
